@@ -361,7 +361,16 @@ func (e *eng) viewOf(w statedb.WriteTxn, ntab int) (s string) {
 		sort.Slice(ids, func(a, b int) bool {
 			return len(ids[a]) < len(ids[b]) || (len(ids[a]) == len(ids[b]) && ids[a] < ids[b])
 		})
-		parts = append(parts, "{"+strings.Join(ids, ",")+"}")
+		// the initialization state the transaction sees (its own snapshot plus its own registrations / marks),
+		// also for tables it has not locked: pending initializers in registration order
+		ini := ""
+		if pend := e.tabs[i].PendingInitializers(w); len(pend) > 0 {
+			ini = "!" + strings.Join(pend, ",")
+		}
+		if done, _ := e.tabs[i].Initialized(w); done != (ini == "") {
+			ini += "?initialized-disagrees-with-pending"
+		}
+		parts = append(parts, "{"+strings.Join(ids, ",")+"}"+ini)
 	}
 	return strings.Join(parts, ";")
 }
